@@ -202,6 +202,14 @@ func VerifC10_CancellationOutcome() {
 func VerifC10_CanaryRollbackTaskOrder()    { VerifC04_CanaryTaskSequence() }
 func VerifC10_BlueGreenRollbackTaskOrder() { VerifC04_BlueGreenTaskSequence() }
 
+// C10: the order above means something only if a task that has not completed holds the cursor: one call of the
+// clean-up from any persisted cursor runs exactly the task the cursor names and moves on only after that task
+// reported completion without an error — whatever (retry, error) pair the task returns, (false, err) included (seed
+// C10-16: the gate looked at retry only, so a failed RouteTrafficToStable let ResumeWorkload run).  Same obligations
+// as C04's.
+func VerifC10_CanaryRollbackTaskHoldsTheCursorUntilDone()    { VerifC04_CanaryFinalisingStep() }
+func VerifC10_BlueGreenRollbackTaskHoldsTheCursorUntilDone() { VerifC04_BlueGreenFinalisingStep() }
+
 // VerifC10_StatusSyncKeepsTheRecordedRevision: rollback, supersession (a third revision) and completion are all
 // recognised by comparing the workload with the revisions *recorded in the status when the release started*.  The
 // status sync that runs at the top of every reconcile must therefore leave those records alone while the rollout is
